@@ -347,10 +347,30 @@ func genSet(r *core.Rand) []structs.ConfigEntry {
 	}
 
 	forceSubsets := r.Chance(65)
-	for _, s := range svcs {
+	ring := r.Chance(9) // redirect ring a -> b -> c -> (a | b | c@other dc): cycles and long redirect walks
+	for i, s := range svcs {
 		p := 55
 		if forceSubsets {
 			p = 90
+		}
+		if ring {
+			e := genResolver(r, s, forceSubsets)
+			e.Failover = nil
+			e.Redirect = &structs.ServiceResolverRedirect{Service: svcs[(i+1)%3]}
+			if i == 2 {
+				switch r.Intn(4) {
+				case 0:
+					e.Redirect.Service = "b"
+				case 1:
+					e.Redirect = &structs.ServiceResolverRedirect{Datacenter: core.Pick(r, dcs)}
+				case 2:
+					e.Redirect = nil
+				}
+			} else if r.Chance(25) {
+				e.Redirect.Datacenter = core.Pick(r, dcs)
+			}
+			out = append(out, e)
+			continue
 		}
 		if r.Chance(p) {
 			out = append(out, genResolver(r, s, forceSubsets))
